@@ -195,9 +195,17 @@ def groups(tier, seed):
                     yield {'tree': t, 'layer': 'one-link:' + target}
     for t in pairs(tier):
         yield {'tree': t, 'layer': 'two-links'}
+    # two disjoint roots with their own options; the same link (one inode, two names) lives in both
+    for fa in (False, True):
+        for fb in (False, True):
+            for order in ('ab', 'ba'):
+                for mode in ('', 'dfs'):
+                    yield {'kind': 'two-roots', 'fa': fa, 'fb': fb, 'order': order, 'mode': mode, 'layer': 'two-roots'}
 
 
 def single(case):
+    if case.get('kind') == 'two-roots':
+        return {k: case[k] for k in ('kind', 'fa', 'fb', 'order', 'mode', 'layer')}
     return {'tree': case['tree'], 'layer': case.get('layer'), 'only': case['cfg']}
 
 
@@ -246,7 +254,70 @@ def model(troot, follow, maxdepth):
     return rows, all(v == 1 for v in routes.values())
 
 
+def eval_two_roots(env, group):
+    holder = env.newdir('c18t')
+    core.materialise(holder, {'out': D({'od': D({'o1': F(1), 'deep': D({'o2': F(1)})}), 'oe': D({'o3': F(1)})}),
+                              'a': D({'fa': F(1), 'sa': D({'x': F(1)})}), 'b': D({'fb': F(1)})})
+    os.symlink(os.path.join(holder, 'out', 'od'), os.path.join(holder, 'a', 'la'))
+    os.link(os.path.join(holder, 'a', 'la'), os.path.join(holder, 'b', 'lb'), follow_symlinks=False)      # one link, two names
+    os.symlink('../out/oe', os.path.join(holder, 'a', 'sa', 'le'))
+    os.symlink('../out/oe', os.path.join(holder, 'b', 'le2'))
+    outs = []
+    try:
+        roots = [('a', group['fa']), ('b', group['fb'])]
+        if group['order'] == 'ba':
+            roots.reverse()
+        frm = ', '.join(r + (' symlinks' if f else '') + (' ' + group['mode'] if group['mode'] else '') for r, f in roots)
+        q = ['path from %s into list' % frm]
+        o = env.run(q, cwd=holder, timeout=10.0)
+        # model: roots in order, every real directory entered at most once per query, a link followed only under its root's option
+        visited, exp = set(), []
+        for r, follow in roots:
+            start = os.path.realpath(os.path.join(holder, r))
+            visited.add(start)
+            queue = [start]
+            while queue:
+                d = queue.pop(0)
+                for n in sorted(os.listdir(d)):
+                    p = os.path.join(d, n)
+                    exp.append((d, n))
+                    if os.path.isdir(p) and (follow or not os.path.islink(p)):
+                        t = os.path.realpath(p)
+                        if t not in visited:
+                            visited.add(t)
+                            queue.append(t)
+        exp.sort()
+        case = dict(group, argv=q)
+        r_ = {'case': case, 'layer': 'two-roots', 'nt': group['fa'] or group['fb'], 'trans': len(exp) + 1}
+        if o.timeout:
+            r_.update(status='viol', cls='no-termination', detail=dict(o.brief(), argv=q), sig=('hang',))
+        elif o.panicked or o.rc not in (0, 1, 2):
+            r_.update(status='viol', cls='crash', detail=dict(o.brief(), argv=q), sig=('crash',))
+        else:
+            got = []
+            for p in o.rows():
+                ap = os.path.normpath(os.path.join(holder, p))
+                got.append((os.path.realpath(os.path.dirname(ap)), os.path.basename(ap)))
+            got.sort()
+            if got != exp:
+                rel = lambda x: os.path.relpath(os.path.join(*x), holder)
+                missing, extra = [x for x in exp if x not in got], [x for x in got if x not in exp]
+                cls = 'rows-behind-link-missing' if missing and not extra else 'rows-extra' if extra and not missing else 'rows-differ'
+                r_.update(status='viol', cls='two-roots:' + cls, sig=('rows', cls),
+                          detail={'argv': q, 'missing': list(map(rel, missing))[:6], 'extra': list(map(rel, extra))[:6]})
+            elif o.rc != 0 or o.err:
+                r_.update(status='viol', cls='status-or-stderr-with-nothing-unreadable', detail=dict(o.brief(), argv=q), sig=('rc', o.rc))
+            else:
+                r_.update(status='ok', sig=tuple(got))
+        outs.append(r_)
+    finally:
+        env.rmtree(holder)
+    return outs
+
+
 def eval_group(env, group, tier):
+    if group.get('kind') == 'two-roots':
+        return eval_two_roots(env, group)
     holder = env.newdir('c18')
     os.makedirs(os.path.join(holder, 'real'))
     troot = os.path.join(holder, 'real', 't')
